@@ -57,7 +57,7 @@ func c09Gen(gen string) *ref.G {
 func init() {
 	engine.Register(&engine.Check{
 		ID: "C09", Level: "exploration",
-		Rule: "every closed ring of 3 (and 4) free vertices on the 4x4 (3x3 quick for 4) integer grid as LinearRing, single-ring Polygon and single-polygon MultiPolygon; every polyline of 0..3 grid points; every sequence of 0..3 rings over a 6-ring menu (empty, ccw, cw, quad, 1-point, 2-point) as Polygon; every sequence of 0..3 polygons over an 8-polygon menu (incl. no-ring and empty-ring polygons) as MultiPolygon; every sequence of 0..3 lines over a 4-line menu as MultiLineString; plus large instances (rings and lines of 10/100/1000 lattice vertices, polygons of up to 200 rings, multipolygons of up to 260 polygons incl. empty ones) x layouts (extra ordinates are distractors) x exact scalings 2^k; plus mixed magnitudes (every closed quadrilateral on {-2,-1,1,2}^2 with one ordinate of the first or third vertex scaled by 2^40 or 2^80); Area/Length vs rational shoelace and 256-bit sqrt sums with a forward error bound; additivity against part accessors; totality (no panic). distinct_nontrivial = distinct geometries with at least one segment Also: one very long part per kind with 2^k-1, 2^k, 2^k+1 coordinates up to 2^15 (thorough 2^17), and every query / in-place change / query history of length <=3 (thorough 4) on live geometries (writes through FlatCoords, Coord(i) and part accessors, TransformInPlace, Reverse, SetCoords, Push).",
+		Rule: "every closed ring of 3 (and 4) free vertices on the 4x4 (3x3 quick for 4) integer grid as LinearRing, single-ring Polygon and single-polygon MultiPolygon; every polyline of 0..3 grid points; every sequence of 0..3 rings over a 6-ring menu (empty, ccw, cw, quad, 1-point, 2-point) as Polygon; every sequence of 0..3 polygons over an 8-polygon menu (incl. no-ring and empty-ring polygons) as MultiPolygon; every sequence of 0..3 lines over a 4-line menu as MultiLineString; plus large instances (rings and lines of 10/100/1000 lattice vertices, polygons of up to 200 rings, multipolygons of up to 260 polygons incl. empty ones) x layouts (extra ordinates are distractors) x exact scalings 2^k; plus the empty NoLayout geometry of every type; a slope lattice (segments and slivers whose ordinate differences have ratio 2^-j, j=0..60, and 10^-j, j=1..18, both axis orders, three lengths); mixed magnitudes (every closed quadrilateral on {-2,-1,1,2}^2 with one ordinate of the first or third vertex scaled by 2^40 or 2^80); Area/Length vs rational shoelace and 256-bit sqrt sums with a forward error bound; additivity against part accessors; totality (no panic). distinct_nontrivial = distinct geometries with at least one segment Also: one very long part per kind with 2^k-1, 2^k, 2^k+1 coordinates up to 2^15 (thorough 2^17), and every query / in-place change / query history of length <=3 (thorough 4) on live geometries (writes through FlatCoords, Coord(i) and part accessors, TransformInPlace, Reverse, SetCoords, Push).",
 		Run:  c09Run,
 		Replay: func(c *engine.Ctx, kind string, raw json.RawMessage) {
 			if kind == "c09-history" {
@@ -179,6 +179,31 @@ func c09Run(c *engine.Ctx) {
 						}
 					}
 				}
+			}
+		}
+	}
+	// NoLayout: the only well-formed geometries of that layout are the empty ones; their measures
+	// are zero and asking for them must not panic (stride 0 is a divisor waiting to happen)
+	for _, k := range []ref.Kind{ref.Point, ref.LineString, ref.LinearRing, ref.Polygon, ref.MultiPoint, ref.MultiLineString, ref.MultiPolygon} {
+		add(&ref.G{Kind: k, Layout: geom.NoLayout})
+	}
+	// slope lattice: one segment (and a closed sliver) whose ordinate differences have the ratio
+	// 2^-j, j = 0..60, and 10^-j, j = 0..18, in both axis orders and at three lengths: the term
+	// dy^2 stops contributing only below 2^-27, every ratio above that must show in the length
+	for j := 0; j <= 78; j++ {
+		r := math.Ldexp(1, -j)
+		if j > 60 {
+			r = math.Pow(10, -float64(j-60))
+		}
+		for _, L := range []float64{1, 3, 1 << 20} {
+			for _, sw := range []bool{false, true} {
+				a, b, d := pt2{0, 0}, pt2{L, L * r}, pt2{L, 0}
+				if sw {
+					b, d = pt2{L * r, L}, pt2{0, L}
+				}
+				add(&ref.G{Kind: ref.LineString, Layout: geom.XY, C1: ringC([]pt2{a, b}, geom.XY, ref.Counter())})
+				add(&ref.G{Kind: ref.LinearRing, Layout: geom.XYZ, C1: ringC(closed(a, b, d), geom.XYZ, ref.Counter())})
+				add(&ref.G{Kind: ref.MultiLineString, Layout: geom.XYM, C2: [][]ref.C{ringC([]pt2{b, a, d}, geom.XYM, ref.Counter())}})
 			}
 		}
 	}
